@@ -925,7 +925,8 @@ class SolverWrapper:
         pieces = len(ranges)
         Ls = [r[0] for r in ranges]
         Us = [r[1] for r in ranges]
-        M = (max(Us) - min(Ls)) * 2
+        # M must dominate both the distance of x to any range and the distance between any two constants
+        M = max((max(Us) - min(Ls)) * 2, max(constants) - min(constants))
 
         # Create binary variables z[i] for each piece.
         z = self.add_variables(
